@@ -1042,7 +1042,7 @@ class Interp:
         from . import ops
         if isinstance(target, ast.Name):
             hint = self.local_types.get(target.id)
-            if hint is not None and not isinstance(v, SV):
+            if hint is not None and (not isinstance(v, SV) or v.ty != hint):
                 from . import ops as _ops
                 v = _ops.to_ty(self, st, v, hint)
             st.assign(target.id, v)
